@@ -29,7 +29,7 @@ ASSUMPTIONS = [
     "reader/writer are recording stubs (readline waits for the harness to feed a line; drain returns at once)",
 ]
 
-KINDS = ("get", "help", "perr", "aerr", "lock", "flush", "eof", "cbrel", "stop", "unlock", "bighelp")
+KINDS = ("get", "help", "perr", "aerr", "lock", "flush", "eof", "cbrel", "stop", "unlock", "apply", "bighelp")
 BIG = 1500      # longer than any buffer-size heuristic a session might apply
 
 
@@ -99,6 +99,10 @@ class _StubParser:
             return Namespace(command=TaskPool.lock)
         if kind == "unlock":
             return Namespace(command=TaskPool.unlock)
+        if kind == "apply":
+            self.napply = getattr(self, "napply", 0) + 1
+            return Namespace(command=TaskPool.apply, func=self.s._verif_fn, args=(), kwargs=None, num=0,
+                             group_name="%s%d" % (self.ch, self.napply), end_callback=None, cancel_callback=None)
         return Namespace(command=TaskPool.flush, return_exceptions=True)
 
 
@@ -120,10 +124,14 @@ def tpl_listen(s1, k1, n1, s2, k2, n2, s3, k3, n3, s4, k4, n4, _twin=False):
             rd, wr = _Reader(w), _Writer()
             s = ControlSession(server, rd, wr)
             s._parser = _StubParser(s, ch)
+            s._verif_fn = w.worker(("s", ch))
             sess.append({"s": s, "rd": rd, "wr": wr, "task": w.spawn(s.listen()), "exp": [], "eof": False, "fed": 0,
                          "pending_flush": None, "stopline": False})
         w.settle()
         cb_released = [False]
+
+        def ch_of(q):
+            return q["s"]._parser.ch
 
         def check():
             for q in sess:
@@ -145,7 +153,10 @@ def tpl_listen(s1, k1, n1, s2, k2, n2, s3, k3, n3, s4, k4, n4, _twin=False):
                     w.fail(1801)
                 else:
                     for got, e in zip(q["wr"].out, exp):
-                        if got != (e + "\n").encode():
+                        if e is None:      # reply of an apply line: the requested group name, or empty if the pool refused it
+                            if got != b"\n" and not (got[:1] == ch_of(q).encode() and got.endswith(b"\n")):
+                                w.fail(1802)
+                        elif got != (e + "\n").encode():
                             w.fail(1802)
                 if kind == "ok" and not q["eof"] and server.serving:
                     w.fail(1806)
@@ -191,6 +202,10 @@ def tpl_listen(s1, k1, n1, s2, k2, n2, s3, k3, n3, s4, k4, n4, _twin=False):
                     q["exp"].append(str(ArgumentError(None, ch * n + "!")))
                 elif kind in ("lock", "unlock"):
                     q["exp"].append("ok")
+                elif kind == "apply":
+                    q["napply"] = q.get("napply", 0) + 1
+                    # the pool is locked (-> message-less PoolIsLocked, empty reply) or the group name comes back
+                    q["exp"].append(None)
                 elif kind == "flush":
                     if q["pending_flush"] is None and not cb_released[0]:
                         q["pending_flush"] = len(q["exp"])
@@ -299,8 +314,8 @@ def families(tier):
         pre += ["0 <= s%d <= 1" % i, "0 <= k%d <= %d" % (i, nk), "0 <= n%d <= 3" % i]
     if not thorough:
         pre += ["k4 == %d" % nk, "n4 == 0", "s4 == 0", "s1 == 0", "s3 == 0", "n1 == 0 or n1 == 2", "n2 == 0 or n2 == 2", "n3 == 0 or n3 == 2",
-                "k3 == 0 or k3 == 1 or 5 <= k3 <= 7 or k3 == %d" % nk, "k2 <= 9"]
-        parts = parts_product(k1=(0, 1, 5, 10), k2=range(nk - 1))
+                "k3 == 0 or k3 == 1 or 5 <= k3 <= 7 or k3 == %d" % nk, "k2 <= 10"]
+        parts = parts_product(k1=(0, 1, 5, 11), k2=range(nk - 1))
     else:
         pre += ["k4 == %d" % nk, "n4 == 0", "s4 == 0", "s1 == 0", "s3 == 0"]
         parts = parts_product(k1=range(nk), k2=range(nk))
